@@ -220,24 +220,6 @@ Proof.
   destruct (leaf_entry f); rewrite IH; reflexivity.
 Qed.
 
-Definition leaves_at (rp : rpath) (e : entry) : list (rpath * entry) :=
-  filter (fun pe => is_leaf (snd pe)) (entries rp e).
-
-Definition leaves_list (rp : rpath) (es : list (name * entry)) : list (rpath * entry) :=
-  filter (fun pe => is_leaf (snd pe)) (entries_list rp es).
-
-Lemma leaves_list_cons rp n e es :
-  leaves_list rp ((n, e) :: es)
-  = (if is_leaf e then [(n :: rp, e)] else []) ++ leaves_at (n :: rp) e ++ leaves_list rp es.
-Proof.
-  unfold leaves_list, leaves_at. cbn [entries_list]. rewrite filter_app. cbn [filter snd].
-  destruct (is_leaf e); reflexivity.
-Qed.
-
-Lemma leaves_at_dirkind rp es mask :
-  leaves_at rp (if mask then EPhantom es else EDir es) = leaves_list rp es.
-Proof. unfold leaves_at, leaves_list. destruct mask; [rewrite entries_phantom|rewrite entries_dir]; reflexivity. Qed.
-
 Definition class_free (pats : list P) (rp : rpath) (node : fnode) : Prop :=
   forall v f, In (v, f) (fnodes rp node) -> known_C15 excl m pats v = false.
 
@@ -254,31 +236,31 @@ Proof.
   destruct (scan_list ign rp mask c) as [es evs] eqn:Hsl. cbn [fst].
   rewrite leaves_at_dirkind.
   unfold class_free in Hfree. rewrite fnodes_dir in Hfree.
-  revert es evs Hsl. induction c as [|[n ch] tl IHl]; intros es evs Hsl.
+  revert es evs Hsl. induction c as [|[n ch] rest IHl]; intros es evs Hsl.
   - cbn in Hsl. injection Hsl as <- <-. reflexivity.
-  - inversion IHc as [|? ? Hch Htl]; subst. cbn [snd] in Hch.
-    assert (Hfree_tl : forall v f, In (v, f) (fnodes_list rp tl) -> known_C15 excl m pats v = false).
+  - inversion IHc as [|x0 l0 Hch Htl]; subst x0 l0. cbn [snd] in Hch.
+    assert (Hfree_tl : forall v f, In (v, f) (fnodes_list rp rest) -> known_C15 excl m pats v = false).
     { intros v f H. apply (Hfree v f). cbn [fnodes_list]. apply in_or_app. right. exact H. }
     specialize (IHl Htl Hfree_tl).
     cbn [scan_list] in Hsl.
     destruct (scan_child ign rp mask n ch) as [e ev] eqn:Hsc.
-    destruct (scan_list ign rp mask tl) as [es' evs'] eqn:Hsl'.
+    destruct (scan_list ign rp mask rest) as [es' evs'] eqn:Hsl'.
     injection Hsl as <- <-. specialize (IHl es' evs' eq_refl).
     rewrite leaves_list_cons, IHl. cbn [docker_list]. rewrite keep_leaves_app.
     rewrite app_assoc. f_equal.
     (* the child itself *)
-    set (q := n :: rp).
-    assert (Hkq : known_C15 excl m pats q = false).
-    { apply (Hfree q ch). cbn [fnodes_list]. left. reflexivity. }
-    pose proof (docker_excluded_step pats q ltac:(discriminate) (known_C15_head pats n rp Hkq)) as Hstep.
-    cbn [tl] in Hstep. fold q in Hstep. rewrite <- Hmask in Hstep.
+    assert (Hkq : known_C15 excl m pats (n :: rp) = false).
+    { apply (Hfree (n :: rp) ch). cbn [fnodes_list]. left. reflexivity. }
+    pose proof (docker_excluded_step pats (n :: rp) ltac:(discriminate) (known_C15_head pats n rp Hkq)) as Hstep.
+    cbn [tl] in Hstep. rewrite <- Hmask in Hstep.
+    set (q := n :: rp) in *.
     rewrite (mopm_docker_excluded pats q ltac:(discriminate)), Hstep.
     assert (Hfree_ch : class_free pats q ch).
     { intros v f H. apply (Hfree v f). cbn [fnodes_list]. right. apply in_or_app. left. exact H. }
     pose proof (mfm_status pats q (is_fdir ch)) as Hst.
     pose proof (mfm_continue pats q (is_fdir ch)) as Hct.
     destruct (scan_child_spec ign rp mask n ch) as [[Hk H]|[(Hk & Hdec & H)|(Hk & mask' & Hdec & H)]];
-      rewrite Hsc in H; injection H as -> ->; fold q in Hdec.
+      rewrite Hsc in H; injection H as -> ->; try fold q in Hdec.
     + (* unsupported kind *)
       subst ch. cbn [is_leaf is_fdir andb leaves_at entries filter app].
       destruct (overlay _ mask); reflexivity.
@@ -311,7 +293,7 @@ Proof.
         - injection Hdec as <-. split; [reflexivity|discriminate]. }
       destruct Hm' as [Hm' Hpre].
       pose proof (Hch q mask' ltac:(rewrite Hm', Hstep; reflexivity) Hfree_ch) as IHch.
-      fold ign in IHch. rewrite IHch.
+      fold ign in IHch. fold q. rewrite IHch.
       destruct ch as [c'|dg|tg|]; [| | |congruence].
       * (* directory *)
         assert (Hnl : is_leaf (fst (scan_node ign q mask' (FDir c'))) = false).
@@ -332,6 +314,71 @@ Proof.
         -- reflexivity.
 Qed.
 
+(* the mask handed to a child that is walked is Docker's verdict on it *)
+Lemma child_mask pats rp n ch mask mask' :
+  mask = docker_excluded excl m pats rp ->
+  known_C15 excl m pats (n :: rp) = false ->
+  decide (fst (dock_ignorer excl ptext m pats (n :: rp) (is_fdir ch)))
+         (snd (dock_ignorer excl ptext m pats (n :: rp) (is_fdir ch))) mask = Some mask' ->
+  mask' = docker_excluded excl m pats (n :: rp).
+Proof.
+  intros Hmask Hk Hdec.
+  pose proof (docker_excluded_step pats (n :: rp) ltac:(discriminate) (known_C15_head pats n rp Hk)) as Hstep.
+  cbn [tl] in Hstep. rewrite <- Hmask in Hstep. rewrite Hstep.
+  unfold dock_ignorer in Hdec. rewrite mfm_status, mfm_continue in Hdec.
+  destruct (exact_status excl m pats (n :: rp)); cbn [overlay decide status_eqb negb andb] in *.
+  - destruct (mask && negb _) in Hdec; [discriminate|]. injection Hdec as <-. reflexivity.
+  - destruct (negb _) in Hdec; [discriminate|]. injection Hdec as <-. reflexivity.
+  - injection Hdec as <-. reflexivity.
+Qed.
+
+(* in the raw snapshot a directory is a phantom exactly where Docker excludes it *)
+Lemma dir_kinds_agree pats node :
+  forall rp mask,
+    mask = docker_excluded excl m pats rp ->
+    class_free pats rp node ->
+    forall q e, In (q, e) (entries rp (fst (scan_node (dock_ignorer excl ptext m pats) rp mask node))) ->
+      match e with
+      | EPhantom _ => docker_excluded excl m pats q = true
+      | EDir _ => docker_excluded excl m pats q = false
+      | _ => True
+      end.
+Proof.
+  set (ign := dock_ignorer excl ptext m pats).
+  induction node as [c IHc|d|t|] using fnode_ind2; intros rp mask Hmask Hfree q e Hin;
+    try (cbn in Hin; destruct Hin).
+  rewrite scan_node_dir in Hin.
+  destruct (scan_list ign rp mask c) as [es evs] eqn:Hsl. cbn [fst] in Hin.
+  assert (Hin' : In (q, e) (entries_list rp es)).
+  { destruct mask; [rewrite entries_phantom in Hin|rewrite entries_dir in Hin]; exact Hin. }
+  clear Hin. unfold class_free in Hfree. rewrite fnodes_dir in Hfree.
+  revert es evs Hsl Hin'. induction c as [|[n ch] rest IHl]; intros es evs Hsl Hin.
+  - cbn in Hsl. injection Hsl as <- <-. destruct Hin.
+  - inversion IHc as [|x0 l0 Hch Hrest]; subst x0 l0. cbn [snd] in Hch.
+    assert (Hfree_rest : forall v f, In (v, f) (fnodes_list rp rest) -> known_C15 excl m pats v = false).
+    { intros v f H. apply (Hfree v f). cbn [fnodes_list]. apply in_or_app. right. exact H. }
+    specialize (IHl Hrest Hfree_rest).
+    cbn [scan_list] in Hsl.
+    destruct (scan_child ign rp mask n ch) as [e0 ev] eqn:Hsc.
+    destruct (scan_list ign rp mask rest) as [es' evs'] eqn:Hsl'.
+    injection Hsl as <- <-. cbn [entries_list] in Hin.
+    assert (Hkq : known_C15 excl m pats (n :: rp) = false).
+    { apply (Hfree (n :: rp) ch). cbn [fnodes_list]. left. reflexivity. }
+    assert (Hfree_ch : class_free pats (n :: rp) ch).
+    { intros v f H. apply (Hfree v f). cbn [fnodes_list]. right. apply in_or_app. left. exact H. }
+    destruct (scan_child_spec ign rp mask n ch) as [[Hk H]|[(Hk & Hdec & H)|(Hk & mask' & Hdec & H)]];
+      rewrite Hsc in H; injection H as -> ->.
+    + destruct Hin as [[= <- <-]|Hin]; [exact I|]. cbn [entries app] in Hin. exact (IHl es' evs' eq_refl Hin).
+    + destruct Hin as [[= <- <-]|Hin]; [exact I|]. cbn [entries app] in Hin. exact (IHl es' evs' eq_refl Hin).
+    + pose proof (child_mask pats rp n ch mask mask' Hmask Hkq Hdec) as Hm'.
+      destruct Hin as [[= <- <-]|Hin].
+      * destruct ch as [c'|dg|tg|]; try exact I.
+        rewrite scan_node_dir. destruct (scan_list ign (n :: rp) mask' c'). cbn [fst].
+        destruct mask'; [symmetry; exact Hm'|symmetry; exact Hm'].
+      * apply in_app_or in Hin. destruct Hin as [Hin|Hin]; [|exact (IHl es' evs' eq_refl Hin)].
+        exact (Hch (n :: rp) mask' Hm' Hfree_ch q e Hin).
+Qed.
+
 Theorem leaves_equal pats root :
   class_free pats [] root ->
   leaves (snapshot (dock_ignorer excl ptext m pats) root) = docker_leaves excl ptext m pats root.
@@ -341,3 +388,57 @@ Proof.
 Qed.
 
 End DockerFacts.
+
+(* ====================================================================== *)
+(* 4. The checker applied to the implementation's reified snapshot.        *)
+(* ====================================================================== *)
+From Mv Require Import Proof.EntryFacts.
+
+Lemma rpath_eqb_eq a b : rpath_eqb a b = true <-> a = b.
+Proof.
+  revert b. induction a as [|x a IH]; intros [|y b]; cbn [rpath_eqb]; split; intros H;
+    try reflexivity; try discriminate.
+  - apply andb_prop in H. destruct H as [H1 H2]. apply str_eqb_eq in H1. apply IH in H2. congruence.
+  - injection H as -> ->. rewrite String.eqb_refl. apply IH. reflexivity.
+Qed.
+
+Lemma pe_eqb_eq x y : pe_eqb x y = true <-> x = y.
+Proof.
+  destruct x as [p e], y as [q f]. unfold pe_eqb. cbn [fst snd]. split.
+  - intros H. apply andb_prop in H. destruct H as [H1 H2].
+    apply rpath_eqb_eq in H1. apply entry_eqb_eq in H2. congruence.
+  - intros [= -> ->]. apply andb_true_intro. split; [apply rpath_eqb_eq|apply entry_eqb_eq]; reflexivity.
+Qed.
+
+Lemma diff_pe_nil a b : diff_pe a b = [] -> forall x, In x a -> In x b.
+Proof.
+  unfold diff_pe. intros H x Hx.
+  destruct (existsb (pe_eqb x) b) eqn:E.
+  - apply existsb_exists in E. destruct E as (y & Hy & He). apply pe_eqb_eq in He. subst. exact Hy.
+  - exfalso. assert (Hin : In x (filter (fun x0 => negb (existsb (pe_eqb x0) b)) a)).
+    { apply filter_In. split; [exact Hx|]. rewrite E. reflexivity. }
+    rewrite H in Hin. destruct Hin.
+Qed.
+
+Lemma check_C15_leaves_sound pats tree anc rs :
+  check_C15 pats tree anc rs = true ->
+  forall pe, In pe (leaves rs) <-> In pe (docker_leaves dexcl dtext dmatch pats tree).
+Proof.
+  unfold check_C15, c15_departures. intros H.
+  destruct (map fst (leaf_departures pats tree rs) ++ dir_departures pats tree anc rs) eqn:E; [|discriminate].
+  apply app_eq_nil in E. destruct E as [E _]. apply map_eq_nil in E.
+  unfold leaf_departures in E. apply app_eq_nil in E. destruct E as [E1 E2].
+  intros pe. split; [apply (diff_pe_nil _ _ E1)|apply (diff_pe_nil _ _ E2)].
+Qed.
+
+Lemma diff_pe_same a : diff_pe a a = [].
+Proof.
+  unfold diff_pe. induction a as [|x a IH]; [reflexivity|].
+  assert (H : forall l b, (forall y, In y l -> In y b) ->
+                          filter (fun x0 => negb (existsb (pe_eqb x0) b)) l = []).
+  { induction l as [|y l IHl]; intros b Hb; [reflexivity|]. cbn [filter].
+    assert (E : existsb (pe_eqb y) b = true).
+    { apply existsb_exists. exists y. split; [apply Hb; left; reflexivity|apply pe_eqb_eq; reflexivity]. }
+    rewrite E. cbn [negb]. apply IHl. intros z Hz. apply Hb. right. exact Hz. }
+  apply H. intros y Hy. exact Hy.
+Qed.
